@@ -3,11 +3,19 @@ from contracts import atomic as A
 
 
 def units(tier):
-    return [Unit(A.Refused, {'sid': sid}) for sid in sorted(A.REFUSALS)]
+    import os
+    us = [Unit(A.Refused, {'sid': sid}) for sid in sorted(A.REFUSALS)]
+    # a refusal chosen from the state a random edit history leaves (contracts/fidelity.py histories)
+    base = int(os.environ.get('VERIF_SEED', '0') or 0) * 1000 if tier != 'quick' else 0
+    flavours = ('plain', 'joliet', 'rr109', 'rr112-joliet-xa') if tier == 'quick' else ('plain', 'level3', 'joliet', 'rr109', 'rr112', 'rr110-joliet', 'rr112-joliet-xa')
+    for fl in flavours:
+        for k in range(1, 3 if tier == 'quick' else 16):
+            us.append(Unit(A.RandomRefused, {'history': 'random:%s:%d' % (fl, base + k)}))
+    return us
 
 
 META = {}
-OPTS = {'quick': {'unit_timeout_s': 600}}
+OPTS = {'quick': {'unit_timeout_s': 900}, 'thorough': {'unit_timeout_s': 1800}}
 
 
 def canaries(tier):
@@ -17,6 +25,7 @@ def canaries(tier):
 META = {
     'assumptions': [
         'B (bounded scenarios): each refusal is exercised on one small image per flavour (plain / Joliet / Rock Ridge / UDF / El Torito) built through the real API and executed by pyvc; symbolic within a scenario: the announced file length (all 32-bit values) and, for the illegal-character scenarios, the character (every illegal ASCII character)',
+        'random states: 8 (quick) / 105 (thorough) random edit histories, each followed by one call the library must refuse, chosen by the seed from what the history left (duplicate file / directory / link name, missing parent or target, non-empty directory, file given as directory and vice versa, illegal character, version out of range, Rock Ridge name on a plain image)',
         'the clock and random sources are pinned identically for the image under test and the reference image',
         '"unchanged" is decided the way the statement puts it: the next write (and a later edit followed by a write) of the image equals that of an identically built image on which the refused call was never made',
     ],
